@@ -286,16 +286,50 @@ def case_strategy():
     return cases()
 
 
+def catalog():
+    """Small retry programs for the single-pre-emption sweep (completion callback || submit thread)."""
+    out = {}
+
+    def prog(base, subs, extra_threads=()):
+        threads = [[]]
+        total = 0.0
+        for i, (script, pol) in enumerate(subs):
+            f = "f%d" % i
+            threads[0].extend([["submit", "ex", f, {"script": script, "retry_policy": pol}], ["add_cb", f, "cb_" + f]])
+        for t in extra_threads:
+            threads.append(t)
+        return {"setup": [["build", "ex", {"base": base, "layers": [{"kind": "retry", "policy": {"type": "exc", "max_attempts": 1}}]}]],
+                "threads": threads, "settle": 6.0,
+                "final": [["state", "f%d" % i] for i in range(len(subs))] + [["state", op[2]] for t in extra_threads for op in t if op[0] == "submit"]}
+
+    P0 = {"type": "exc", "max_attempts": 4, "sleep": 0, "exponent": 1.0, "base": ["E0"]}
+    P5 = {"type": "exc", "max_attempts": 4, "sleep": 0.5, "exponent": 2.0, "base": ["E0"]}
+    PS = {"type": "script", "should": [True, True, False], "sleep": [0, 0.25]}
+    fail2 = [["raise", "E0"], ["raise", "E0"], ["tag"]]
+    for bname, base in (("pool1", {"kind": "pool", "workers": 1}), ("pool2", {"kind": "pool", "workers": 2}), ("sync", {"kind": "sync"})):
+        out["zero-delay/" + bname] = {"prog": prog(base, [(fail2, P0)], [[["submit", "ex", "g0", {"script": [["tag"]], "retry_policy": P0}]]])}
+        out["zero-delay-two/" + bname] = {"prog": prog(base, [(fail2, P0), ([["raise", "E0"], ["tag"]], P0)])}
+        out["backoff/" + bname] = {"prog": prog(base, [(fail2, P5), ([["raise", "E0"], ["tag"]], PS)])}
+    return out
+
+
 def shards(tier, seed):
     n = 250 if tier == "quick" else 4000
     specs = [{"mode": "plain", "seed": seed * 1000 + 900 + i, "n": 5000 if tier == "quick" else 60000} for i in range(4)]
     specs += [{"mode": "random", "seed": seed * 1000 + i, "n": n} for i in range(12)]
+    specs += [{"mode": "sweep", "entries": [name], "double": tier == "thorough"} for name in sorted(catalog())]
     return specs
 
 
 def run_shard(spec, ctx):
     if spec["mode"] == "plain":
         run_plain(spec, ctx)
+    elif spec["mode"] == "sweep":
+        import progs
+        cat = catalog()
+        for name in spec["entries"]:
+            progs.sweep(ctx, cat[name]["prog"], name, evaluate, account, double=spec.get("double"),
+                        extra={"entry": name, "scarce": name.endswith("pool1")})
     else:
         import progs
         progs.random_search(ctx, spec, case_strategy(), evaluate, account)
